@@ -190,7 +190,10 @@ def finish(ctx, level="model_checking"):
         "wall_s": round(time.time() - ctx.t0, 2),
         "violations": len(ctx.violations),
     }
-    with open(os.path.join(EVID, ctx.pid + ".json"), "w") as fh:
+    # extensions beyond the listed properties (ids X..) keep their evidence apart from evidence/<property>.json
+    evdir = EVID + "_ext" if ctx.pid.startswith("X") else EVID
+    os.makedirs(evdir, exist_ok=True)
+    with open(os.path.join(evdir, ctx.pid + ".json"), "w") as fh:
         json.dump(ev, fh, indent=1, default=str)
     for fid, n in sorted(ctx.known_hits.items()):
         if n:
